@@ -91,3 +91,57 @@ Proof.
   rewrite E. destruct (generate_indices_new_spec g (mk_flags (fi_marks fi)) (mk_invalid (fi_marks fi))) as (A & B0 & _ & _ & I & _ & _ & N & NB).
   rewrite <- (sel_live_carries _ _ G), <- (ntris_live_carries _ _ G). repeat split; auto.
 Qed.
+
+(* isolated => not outermost (mark_current_barriers clears the flag when it isolates a mesh, and - since the repair of
+   Interface::set_to_outermost - nothing raises it again) *)
+Definition quiet_flags (fl : list flags) : Prop := forall m, f_iso (nth m fl flags0) = true -> f_out (nth m fl flags0) = false.
+
+Lemma quiet_repeat k : quiet_flags (repeat flags0 k).
+Proof.
+  intros m. assert (E : nth m (repeat flags0 k) flags0 = flags0) by (revert m; induction k as [|k IH]; intros [|m]; simpl; auto).
+  rewrite E. simpl. discriminate.
+Qed.
+
+Lemma visit1_quiet g : forall vs fl inv, quiet_flags fl -> quiet_flags (fst (fold_left (visit1 g) vs (fl, inv))).
+Proof.
+  induction vs as [|v vs IH]; intros fl inv G; simpl; auto.
+  unfold visit1 at 1. destruct (f_cb (nth v fl flags0)) eqn:E.
+  - apply IH. intros m. rewrite nth_upd. destruct (Nat.eqb v m && Nat.ltb v (length fl))%bool; simpl; auto.
+  - apply IH. intros m. rewrite nth_upd. destruct (Nat.eqb v m && Nat.ltb v (length fl))%bool eqn:E2; simpl; auto.
+Qed.
+
+Lemma visit2_quiet : forall vs fl, quiet_flags fl -> quiet_flags (fold_left visit2 vs fl).
+Proof.
+  induction vs as [|v vs IH]; intros fl G; simpl; auto. apply IH. unfold visit2.
+  destruct (f_cb (nth v fl flags0) && negb (f_iso (nth v fl flags0)))%bool eqn:E; auto.
+  intros m. rewrite nth_upd. destruct (Nat.eqb_spec v m) as [->|Hn]; simpl; [|apply G].
+  destruct (Nat.ltb m (length fl)); simpl; [|apply G].
+  apply andb_true_iff in E. destruct E as [_ E]. apply negb_true_iff in E. rewrite E. discriminate.
+Qed.
+
+Lemma mark_quiet g zero : quiet_flags (mk_flags (mark_current_barriers g zero)).
+Proof.
+  unfold mark_current_barriers.
+  destruct (fold_left (visit1 g) (barrier_visits g zero false) (repeat flags0 (length (g_meshes g)), [])) as [fl1 inv1] eqn:E.
+  simpl. apply visit2_quiet. change fl1 with (fst (fl1, inv1)). rewrite <- E. apply visit1_quiet. apply quiet_repeat.
+Qed.
+
+Lemma set_outermost_quiet g fl k : quiet_flags fl -> quiet_flags (set_outermost g fl k).
+Proof.
+  intros G m. rewrite set_outermost_raise.
+  destruct (raise_out_spec (flat_map (fun b => map snd (b_om b)) (dom g k)) fl m) as (_ & _ & C & D). rewrite C, D.
+  intros Hi. rewrite Hi, (G m Hi). simpl. rewrite andb_false_r. reflexivity.
+Qed.
+
+Lemma finalize_quiet g hasc zero snz old fi : finalize g hasc zero snz old = (StOk, Some fi) -> quiet_flags (mk_flags (fi_marks fi)).
+Proof.
+  unfold finalize.
+  assert (G0 : quiet_flags (mk_flags (if hasc then mark_current_barriers g zero else marks0 g))).
+  { destruct hasc; [apply mark_quiet|apply quiet_repeat]. }
+  set (mk := if hasc then mark_current_barriers g zero else marks0 g) in *.
+  destruct (Nat.eqb (length (g_doms g)) 0).
+  - destruct (old && negb false && negb (Nat.eqb (length (g_meshes g)) 0))%bool; intros H; inversion H; subst; simpl; auto.
+  - destruct (outermost_domain g) as [k|]; [|discriminate].
+    destruct (old && negb (check_nested g k) && negb (Nat.eqb (length (g_meshes g)) 0))%bool; intros H; inversion H; subst; simpl.
+    apply set_outermost_quiet; auto.
+Qed.
